@@ -115,6 +115,64 @@ def eval_case(case, seed, tier):
     return cnt, probs
 
 
+def _dir_snapshot(d):
+    out = {}
+    for root, _, files in os.walk(d):
+        for f in files:
+            p = os.path.join(root, f)
+            with open(p, "rb") as fh:
+                out[os.path.relpath(p, d)] = fh.read()
+    return out
+
+
+def _lazy_write_to_existing_path(api):
+    """a lazy write aimed at a filesystem path that already holds an array must leave every file there as it is"""
+    def f(a, s, w):
+        import cubed
+        import zarr
+        d = tempfile.mkdtemp(prefix="vkit-c16-")
+        try:
+            path = os.path.join(d, "t.zarr")
+            za = zarr.create_array(path, shape=(4,), dtype="f8", chunks=(2,))
+            za[:] = 7.0
+            before = _dir_snapshot(d)
+            if api == "to_zarr":
+                r = cubed.to_zarr(a, path, compute=False)
+            else:
+                r = cubed.store(a, path, compute=False)
+            r = r if isinstance(r, (tuple, list)) else (r,)
+            cubed.plan(*r)
+            after = _dir_snapshot(d)
+            if before != after:
+                gone = sorted(set(before) - set(after))
+                changed = sorted(k for k in before if k in after and before[k] != after[k])
+                new = sorted(set(after) - set(before))
+                return f"SIDE-EFFECT: files under the existing target changed while only building: removed {gone[:3]}, rewritten {changed[:3]}, added {new[:3]}"
+        finally:
+            shutil.rmtree(d, ignore_errors=True)
+    return f
+
+
+def _plan_multistage_rechunk(a, s, w):
+    """plan / visualize / repr of a multi-stage rechunk whose intermediate array has an irregular (rectilinear) chunk grid"""
+    import cubed
+    import cubed.array_api as xp
+    sp = cubed.Spec(intermediate_store=w.store("inter-ms"), allowed_mem=8 * 6 * 6 + 100, reserved_mem=0, executor=s.executor)
+    x = xp.asarray(np.arange(10.0), chunks=(6,), spec=sp)
+    y = x.rechunk((5,))
+    y.plan()
+    fp = cubed.plan(y, optimize_graph=False)
+    irregular = [n for n, dd in fp.dag.nodes(data=True) if getattr(dd.get("target"), "chunks", None) and not isinstance(dd["target"].chunks[0], int)]
+    d = tempfile.mkdtemp(prefix="vkit-c16-")
+    try:
+        y.visualize(filename=os.path.join(d, "g"), format="svg")
+    finally:
+        shutil.rmtree(d, ignore_errors=True)
+    repr(y)
+    if not irregular:
+        return "VACUOUS: the plan holds no irregularly chunked intermediate any more"
+
+
 def eager_entry_points(_):
     """each eager entry point must enter an executor; each lazy twin must not"""
     import cubed
@@ -161,6 +219,9 @@ def eager_entry_points(_):
         "asarray-above-allowed_mem": lambda a, s, w: xp.asarray(np.ones((1000, 600)), chunks=(100, 600), spec=s),
         "asarray-of-array-with-dtype": lambda a, s, w: xp.asarray(a, dtype=xp.float32),
         "astype": lambda a, s, w: xp.astype(a, xp.int32),
+        "to_zarr-lazy-existing-path": _lazy_write_to_existing_path("to_zarr"),
+        "store-lazy-existing-path": _lazy_write_to_existing_path("store"),
+        "plan-of-multistage-rechunk": _plan_multistage_rechunk,
     }
     for name, f in list(eager.items()) + list(lazy.items()):
         w, ex, spec = fresh()
@@ -183,8 +244,9 @@ def eager_entry_points(_):
                 if eff or ex.entered:
                     probs.append((dict(kind="storage-side-effect", entry=name), f"{name}: refused call touched storage / executed: {eff[:3]}"))
                 continue
+            ret = None
             try:
-                f(a, spec, w)
+                ret = f(a, spec, w)
             except (ValueError, TypeError, NotImplementedError) as e:
                 if name in eager:
                     probs.append((dict(kind="entry-point-error", entry=name), f"{name} raised {type(e).__name__}: {e}"))
@@ -196,6 +258,11 @@ def eager_entry_points(_):
             n += 1
             if name in eager and not ex.entered:
                 probs.append((dict(kind="eager-did-not-execute", entry=name), f"{name} did not enter an executor"))
+            if isinstance(ret, str) and ret.startswith("SIDE-EFFECT"):
+                probs.append((dict(kind="storage-side-effect", entry=name), f"{name}: {ret}"))
+            if isinstance(ret, str) and ret.startswith("VACUOUS"):
+                from ..common import HarnessError
+                raise HarnessError(f"C16 entry {name}: {ret}")
             if name in lazy:
                 if ex.entered:
                     probs.append((dict(kind="executed-while-lazy", entry=name), f"{name} entered an executor"))
